@@ -184,7 +184,7 @@ func loadView(ctx context.Context, scope *ReferenceScope, tableExpr parser.Query
 					s = s[1:]
 				}
 				err = gojson.Unmarshal([]byte(s), &positions)
-				if err != nil {
+				if err != nil || (positions != nil && len(positions) < 1) {
 					return nil, NewTableObjectInvalidDelimiterPositionsError(formatSpecifiedFunction, formatSpecifiedFunction.FormatElement.String())
 				}
 			}
